@@ -343,16 +343,17 @@ def run(rep, tier, seed, replay):
     # directed exhaustive families besides the full-alphabet one:
     #   _late    one partition, leader changes / ISR shrink+expand incl. retried requests: every Persist position after
     #            the Snapshot, every restart / install position behind it
-    #   _install create/delete stream, create/leave group: a live server installing a snapshot (also an EMPTY one)
+    #   _install one stream, two consumers; create/delete stream, create/join/leave group, log <= 4: groups with an
+    #            idle member, delete + re-create under a living group, restart / install incl. an EMPTY snapshot
     fam = (['MC_MetadataFSM_replay.cfg'] if quick else ['MC_MetadataFSM_replay_streams.cfg', 'MC_MetadataFSM_replay_groups.cfg'])
     executed_classes = 0
     for cfg in fam + ['MC_MetadataFSM_replay_late.cfg', 'MC_MetadataFSM_replay_install.cfg']:
         g = graph.tlc_dump('MC_MetadataFSM.tla', cfg, workers=min(core.NCPU, 8), timeout=1500)
         gb, cv, tt = from_graph(g, 0)
         total += tt
-        if quick and os.environ.get('VERIF_C06_SYMMETRY'):
-            # optional budget saver: one behaviour per symmetry class (names of streams/brokers/consumers,
-            # partition counts); the transitions really executed are counted
+        if quick and (cfg == 'MC_MetadataFSM_replay_install.cfg' or os.environ.get('VERIF_C06_SYMMETRY')):
+            # budget: of the largest family the quick tier executes one behaviour per symmetry class (consumer /
+            # stream / broker names by order of first appearance); the transitions really executed are counted
             gb = one_per_class(gb)
             cv = len({i for b in gb for i in b['_edges']})
         covered += cv
